@@ -63,12 +63,19 @@ type c03Block struct {
 	counts  types.Counters
 }
 
-func c03Data(i int) (d [types.ColIdxCount][]byte) {
+// c03Data: alt 0 = every column holds data; 1 = every column empty (a block without flows written
+// through GPDir: nothing is appended to any column file); 2 = every second column empty.
+func c03Data(i, alt int) (d [types.ColIdxCount][]byte) {
 	for c := range d {
+		if alt == 1 || (alt == 2 && c%2 == 1) {
+			continue
+		}
 		d[c] = fixture.Compressible(uint64(c+i), 40+c)
 	}
 	return
 }
+
+var c03DataNames = []string{"all columns", "no data at all", "every second column empty"}
 
 // c03Run drives GPDir directly: sessions of WriteBlocks calls, a session is abandoned
 // (no Close) when a write fails — exactly what DBWriter.Write/WriteBulk do.
@@ -132,9 +139,10 @@ func c03Run(x *explore.Ctx) {
 				return
 			}
 		}
-		err := dir.WriteBlocks(b.ts, b.traffic, b.counts, c03Data(i))
+		dataAlt := x.Deviate(len(c03DataNames), fmt.Sprintf("data@%d", i))
+		err := dir.WriteBlocks(b.ts, b.traffic, b.counts, c03Data(i, dataAlt))
 		x.Transition()
-		x.Logf("write %d ts=%s(%d) traffic=%+v -> %v", i, c03TsNames[tsAlt], b.ts, b.traffic, err)
+		x.Logf("write %d ts=%s(%d) traffic=%+v data=%s -> %v", i, c03TsNames[tsAlt], b.ts, b.traffic, c03DataNames[dataAlt], err)
 		if err != nil {
 			if plain {
 				x.Fail("valid-write-rejected", "write %d of a plainly valid history failed: %v", i, err)
@@ -311,7 +319,7 @@ func c03BuildMeta() [][]byte {
 			explore.HarnessErrorf("open: %v", err)
 		}
 		for i := 0; i < n; i++ {
-			if err := d.WriteBlocks(c03T+int64(i+1)*300, c03Traffic[0], c03Counts[0], c03Data(i)); err != nil {
+			if err := d.WriteBlocks(c03T+int64(i+1)*300, c03Traffic[0], c03Counts[0], c03Data(i, 0)); err != nil {
 				explore.HarnessErrorf("write: %v", err)
 			}
 		}
@@ -409,7 +417,7 @@ func c03DecodeRun(x *explore.Ctx) {
 func init() {
 	register("C03", &explore.Scenario{
 		ID: "C03", Name: "GPDir write histories: accepted => reads back identically", Level: "model_checking",
-		Rule:  "cases = number of writes (2..4; quick 2..3) x every split into sessions; per write deviations: timestamp relative to the previous accepted one (regression, duplicate, +1, max delta 2^32-1, delta overflow 2^32+5, first timestamp again), traffic summary (zero, 2^32-1, 2^32 in each of v4/v6/drops, 2^63), counters; <= bound deviations. A session is abandoned when a write fails (as DBWriter does). state = committed block list; oracle: reopen shows exactly the blocks of completely accepted sessions, unaltered; plainly valid histories must be accepted. non-trivial = histories containing a non-monotone/extreme timestamp or an over-wide count",
+		Rule:  "cases = number of writes (2..4; quick 2..3) x every split into sessions; per write deviations: timestamp relative to the previous accepted one (regression, duplicate, +1, max delta 2^32-1, delta overflow 2^32+5, first timestamp again), traffic summary (zero, 2^32-1, 2^32 in each of v4/v6/drops, 2^63), counters, column data (all columns / no data at all / every second column empty); <= bound deviations. A session is abandoned when a write fails (as DBWriter does). state = committed block list; oracle: reopen shows exactly the blocks of completely accepted sessions, unaltered; plainly valid histories must be accepted. non-trivial = histories containing a non-monotone/extreme timestamp or an over-wide count",
 		Cases: func(t string) int { return 3 * 8 },
 		Bound: func(t string) int {
 			if t == "thorough" {
